@@ -153,7 +153,7 @@ def prove(theorems=None, timeout=600):
         raise MachineryError("tlapm: " + (f.group(0) if f else out[-400:]))
     n = int(m.group(1))
     return dict(checker="tlapm --cleanfp spec/proofs/Proofs.tla", obligations=n, discharged=n, wall_s=round(time.time() - t0, 2),
-                theorems=["InColumnAll", "WeightsConvexAll", "ClockInverseAll", "FamilyOrder2All", "ColdRecordsInWindow", "LerpEndpointsAll", "TimeToStepFloorAll", "WarmRecordsInWindow"])
+                theorems=re.findall(r"^THEOREM (\w+)", src, re.M))
 
 
 # ------------------------------------------------------------------------------------------------
